@@ -284,6 +284,70 @@ fn check_pair_deviation(c: &PairDeviation) -> Verdict {
     Verdict::Pass(Pass::new("pair-deviation", count > 0).count("pair_deviations", count))
 }
 
+/// whole finder structures of a valid rendering repainted at once: the complete solid "L" (of the symbol
+/// or of one band of regions) light, all clock modules inverted, all finder modules inverted, all finder
+/// modules dark / light
+#[derive(Debug, Clone)]
+pub struct Repaint(pub usize);
+
+impl Case for Repaint {
+    fn to_json(&self) -> Value {
+        json!({"size": SYMBOLS[self.0].name})
+    }
+}
+
+fn check_repaints(c: &Repaint) -> Verdict {
+    let sym = &SYMBOLS[c.0];
+    let cw: Vec<u8> = (0..sym.total()).map(|i| (i as u32 * 91 + 17) as u8).collect();
+    let base = place::render(sym, &cw);
+    let lay = place::layout(sym);
+    let (w, h) = (sym.cols, sym.rows);
+    let is_solid = |i: usize| matches!(lay[i], ModuleKind::Solid);
+    let is_clock = |i: usize| matches!(lay[i], ModuleKind::Clock(_));
+    let nondata = |i: usize| !matches!(lay[i], ModuleKind::Data(..));
+    let mut variants: Vec<(String, Vec<bool>)> = Vec::new();
+    let paint = |name: &str, f: &dyn Fn(usize, bool) -> bool| -> (String, Vec<bool>) { (name.to_string(), (0..w * h).map(|i| f(i, base[i])).collect()) };
+    variants.push(paint("all solid modules light", &|i, b| if is_solid(i) { false } else { b }));
+    variants.push(paint("all clock modules inverted", &|i, b| if is_clock(i) { !b } else { b }));
+    variants.push(paint("all finder modules inverted", &|i, b| if nondata(i) { !b } else { b }));
+    variants.push(paint("all finder modules dark", &|i, b| if nondata(i) { true } else { b }));
+    variants.push(paint("all finder modules light", &|i, b| if nondata(i) { false } else { b }));
+    variants.push(paint("solid and clock swapped", &|i, b| if is_solid(i) { (i / w + i % w) % 2 == 0 } else if is_clock(i) { true } else { b }));
+    // bands of regions: rows between two rows that consist of finder modules only
+    let full_row = |r: usize| (0..w).all(|x| nondata(r * w + x));
+    let full_col = |x: usize| (0..h).all(|r| nondata(r * w + x));
+    let mut start = 0;
+    for r in 0..h {
+        if full_row(r) && (0..w).all(|x| is_solid(r * w + x) || x == w - 1 || full_col(x)) && r > start {
+            let (a, b) = (start, r);
+            variants.push(paint(&format!("solid modules of the band of rows {}..={} light", a, b), &|i, bit| if is_solid(i) && (a..=b).contains(&(i / w)) { false } else { bit }));
+            variants.push(paint(&format!("finder modules of the band of rows {}..={} inverted", a, b), &|i, bit| if nondata(i) && (a..=b).contains(&(i / w)) { !bit } else { bit }));
+            start = r + 1;
+        }
+    }
+    let mut cstart = 0;
+    for x in 0..w {
+        if full_col(x) && x > cstart && (x + 1 == w || full_col(x + 1) || true) && (0..h).any(|r| is_clock(r * w + x)) {
+            let (a, b) = (cstart, x);
+            variants.push(paint(&format!("clock modules of the band of columns {}..={} inverted", a, b), &|i, bit| if is_clock(i) && (a..=b).contains(&(i % w)) { !bit } else { bit }));
+            variants.push(paint(&format!("solid modules of the band of columns {}..={} light", a, b), &|i, bit| if is_solid(i) && (a..=b).contains(&(i % w)) { false } else { bit }));
+            cstart = x + 1;
+        }
+    }
+    let n = variants.len() as u64;
+    for (name, bits) in variants {
+        if bits == base {
+            continue;
+        }
+        match check_converse(&BitmapCase { width: w, bits, stratum: "finder-repaint" }) {
+            Verdict::Pass(_) => {}
+            Verdict::Fail(r) => return fail(format!("{}: {}", name, r)),
+            other => return other,
+        }
+    }
+    Verdict::Pass(Pass::new("finder-repaint", true).count("finder_repaints", n))
+}
+
 fn g_forward() -> BoxedStrategy<CwCase> {
     (any::<u16>(), any::<u64>(), any::<u16>())
         .prop_map(|(s, seed, k)| {
@@ -383,6 +447,7 @@ fn run(ctx: &Arc<Ctx>) {
         }
     }
     ctx.run_enumerated("line-deviations", "devline", lines, Some("every row and every column of a valid rendering of every size rewritten in 7 ways (inverted, non-data modules inverted, dark, light, shifted, alternating in both phases)"), check_line_deviation);
+    ctx.run_enumerated("finder-repaints", "repaint", (0..48).map(Repaint).collect(), Some("per size: the complete solid L / all clock modules / all finder modules repainted, and the same per band of regions"), check_repaints);
     let mut pairs = Vec::new();
     for (i, s) in SYMBOLS.iter().enumerate() {
         for r in 0..s.rows {
@@ -419,6 +484,7 @@ fn replay(_ctx: &Ctx, kind: &str, case: &Value) -> Option<Verdict> {
     match kind {
         "cw" => Some(check_forward(&CwCase::from_json(case)?)),
         "bitmap" => Some(check_converse(&BitmapCase::from_json(case)?)),
+        "repaint" => Some(check_repaints(&Repaint(refimpl::table::index_of(case["size"].as_str()?)?))),
         "devpair" => Some(check_pair_deviation(&PairDeviation { sym: refimpl::table::index_of(case["size"].as_str()?)?, column: case["line"] == "column", index: case["index"].as_u64()? as usize })),
         "devline" => Some(check_line_deviation(&LineDeviation { sym: refimpl::table::index_of(case["size"].as_str()?)?, column: case["line"] == "column", index: case["index"].as_u64()? as usize })),
         "devrow" => Some(check_deviation_row(&DeviationBlock { sym: refimpl::table::index_of(case["size"].as_str()?)?, row: case["row"].as_u64()? as usize })),
